@@ -29,7 +29,7 @@ def run(res, tier="quick", seed=0, widen=False):
     maxw = 3 if tier == "quick" else 4
     res.rule = ("kernel level: all code sequences of length <= %d over {-1,0,1} (sampled at the top lengths in quick) x %d seeded (kind, dtype, values, window<=%d, "
                 "min_periods, mask) draws; kinds sum/mean/min/max/shift/diff; dtypes f8, i8 (down-cast), datetime64/timedelta64 incl. NaT and values above 2^60; "
-                "API level: GroupBy.rolling_*/shift/diff in both layouts; thorough adds windows 32767/32768/40000; non-trivial = >= 2 groups or null key/value or mask"
+                "plus a deep stream of long (3-14 rows) mostly-single-group series with ties, ~30%% nulls, window 1..6 and every min_periods; API level: GroupBy.rolling_*/shift/diff in both layouts; thorough adds windows 32767/32768/40000; non-trivial = >= 2 groups or null key/value or mask"
                 % (maxlen, per, maxw))
     cases = []
     for L in range(0, maxlen + 1):
@@ -48,6 +48,24 @@ def run(res, tier="quick", seed=0, widen=False):
                     mp = None
                 mask = None if rng.random() < 0.55 else [rng.random() < 0.65 for _ in range(L)]
                 cases.append((kind, dt, codes, vals, 2, window, mp, mask))
+    # deep single-series stream: the theorems give group independence, so window logic is explored on
+    # long series of (mostly) one group with many nulls, ties and every (window, min_periods)
+    n_deep = 6000 if tier == "quick" else 60000
+    for _ in range(n_deep):
+        L = rng.randint(3, 14)
+        codes = tuple(0 if rng.random() < 0.85 else rng.choice([-1, 1]) for _ in range(L))
+        dt = rng.choice(["f8", "f8", "f8", "M8", "m8", "i8"])
+        kind = rng.choice(["sum", "mean", "min", "min", "max", "max", "shift", "diff"])
+        if dt in ("M8", "m8") and kind in ("sum", "mean"):
+            kind = rng.choice(["min", "max", "shift", "diff"])
+        small = {"f8": [None, None, 1, 2, 3, 2, 1], "i8": [1, 2, 3, 2], "M8": [None, None, 10, 20, 30, 20], "m8": [None, None, 10, 20, 30, 20]}[dt]
+        vals = [rng.choice(small) for _ in range(L)]
+        window = rng.randint(1, 6)
+        mp = None if rng.random() < 0.35 else rng.randint(1, window)
+        if kind in ("shift", "diff"):
+            mp = None
+        mask = None if rng.random() < 0.75 else [rng.random() < 0.75 for _ in range(L)]
+        cases.append((kind, dt, codes, vals, 2, window, mp, mask))
     reqs = []
     for c in cases:
         m, s, dom = roll_requests(*c)
